@@ -104,7 +104,7 @@ protected:
 
 
 private:
-  Callbacks callbacks_;
+  Callbacks callbacks_ {};           // no callbacks unless the application sets them
   std::string solutionfileoverride_;
 
   char** argv_options_ {nullptr};   // 0-terminated list of options
